@@ -96,6 +96,23 @@ Theorem C02_later_turns :
 Proof. exact v1_later_turns. Qed.
 Print Assumptions C02_later_turns.
 
+(* generation options are per call: in a conversation whose calls each bring their own options
+   (e.g. output rails switched off for ONE call), the skip flag stays clear and every call that
+   does not disable a category runs it in full - input rails in order over the whole list, the
+   LLM-generated message through the whole output list - whatever the earlier calls disabled *)
+Theorem C02_options_per_call :
+  forall vf llm post_general intent_step next_of predefined msg_of refusal cf ous st,
+    skip st = false ->
+    Forall (fun sou => let '(s, o, u) := sou in
+              let T := turn_v1_opts vf llm post_general intent_step next_of predefined msg_of refusal cf o s u in
+              skip s = false /\
+              (o_in o = true -> ordered_calls (vf (tidx s)) u (irails cf) (rail_calls SIn (snd (fst T)))) /\
+              (o_out o = true -> orails (eff cf o) = orails cf /\
+                                 out_gate vf refusal (eff cf o) s (snd (fst T)) (snd T)))
+           (states_before_opts vf llm post_general intent_step next_of predefined msg_of refusal cf st ous).
+Proof. exact v1_gates_with_options. Qed.
+Print Assumptions C02_options_per_call.
+
 (* ------------------------------------------------------------------ Colang 2.x *)
 
 (* the shipped file: a 3-turn conversation with one output rail that rejects at turn 1; after
